@@ -144,21 +144,23 @@ Section KLevel.
       cbn. f_equal. ring.
     - rewrite Nat.pow_succ_r' in Hx. destruct (evens_odds_length x _ Hx) as [Le Lo].
       rewrite stagesP_last. cbn [brev].
-      rewrite (stagesP_app ko ko ka l 1 1 1) by (rewrite brev_length; lia).
+      change (2 * 1)%nat with (1 + 1)%nat.
+      rewrite (stagesP_app ko ko ka l 1 1 1); [| rewrite brev_length by lia; lia | rewrite brev_length by lia; lia].
       replace (2 ^ Z.of_nat (S l))%Z with (2 * (2 ^ Z.of_nat l * Z.of_nat 1))%Z
-        by (rewrite Nat2Z.inj_succ, Z.pow_succ_r by lia; lia).
+        by (rewrite (Nat2Z.inj_succ l), Z.pow_succ_r by lia; lia).
       rewrite !stagesK_twiddle by lia.
       replace (2 ^ Z.of_nat l * Z.of_nat 1)%Z with (2 ^ Z.of_nat l)%Z by lia.
       rewrite (IHl (w * w) (evens x) Le (half_root_sq w l Hw)).
       rewrite (IHl (w * w) (odds x) Lo (half_root_sq w l Hw)).
+      rewrite Nat.mul_1_r.
       rewrite stagesP_1_one by (rewrite app_length, !dft_length; lia).
       (* the last stage is the combine step with twiddle w^1 *)
-      replace (fpow ko w (2 * (2 ^ Z.of_nat l * 1) / (2 * Z.of_nat (2 ^ l * 1)))) with w.
-      2:{ cbn [fpow ko kops]. rewrite Nat.mul_1_r, Z.mul_1_r.
-          replace (Z.of_nat (2 ^ l)) with (2 ^ Z.of_nat l)%Z by (rewrite Nat2Z.inj_pow; reflexivity).
-          rewrite Z.div_same by (pose proof (Z.pow_pos_nonneg 2 (Z.of_nat l)); lia).
-          unfold kpowZ. change (Z.to_nat 1) with 1%nat. rewrite kpow_1. reflexivity. }
-      unfold block1. rewrite Nat.mul_1_r.
+      assert (Ew : fpow ko w (2 * 2 ^ Z.of_nat l / (2 * Z.of_nat (2 ^ l))) = w).
+      { cbn [fpow ko kops].
+        replace (Z.of_nat (2 ^ l)) with (2 ^ Z.of_nat l)%Z by (rewrite Nat2Z.inj_pow; reflexivity).
+        rewrite Z.div_same by (pose proof (Z.pow_pos_nonneg 2 (Z.of_nat l)); lia).
+        unfold kpowZ. change (Z.to_nat 1) with 1%nat. apply kpow_1. }
+      rewrite Ew. unfold block1.
       rewrite firstn_app, skipn_app, dft_length, Le, Nat.sub_diag. cbn [firstn skipn]. rewrite app_nil_r.
       rewrite firstn_all2 by (rewrite dft_length; lia).
       rewrite skipn_all2 by (rewrite dft_length; lia). cbn [app].
@@ -233,7 +235,6 @@ Section KLevel.
       + rewrite ksum_const. reflexivity.
       + intros k Hk. rewrite kpow_inv by exact Hw0. rewrite (Nat.mul_comm k i). field. apply kpow_neq_0. exact Hw0.
     - intros j Hj Hne.
-      rewrite (ksum_ext fk _ (fun k => nth j x 0 * (w ^ (k * j) * (/ w) ^ (i * k)))) by reflexivity.
       rewrite ksum_mul_l.
       destruct l as [|l]; [cbn in Hi, Hj; lia|].
       assert (Z0 : ksum fk (fun k => w ^ (k * j) * (/ w) ^ (i * k)) (2 ^ S l) = 0); [|rewrite Z0; ring].
@@ -259,9 +260,8 @@ Section KLevel.
     intros H2 l w x Hx Hw Hw0. unfold idft.
     apply (nth_ext _ _ 0 0); [rewrite map_length, !dft_length; reflexivity|].
     intros i Hi. rewrite map_length, !dft_length in Hi.
-    rewrite (nth_indep _ 0 ((fun y => y * / kofZ fk (Z.of_nat (length (dft fk w x)))) 0))
-      by (rewrite map_length, !dft_length; exact Hi).
-    rewrite map_nth. rewrite dft_nth by (rewrite dft_length; exact Hi).
+    rewrite (nth_map_lt _ _ 0) by (rewrite !dft_length; exact Hi).
+    rewrite dft_nth by (rewrite dft_length; exact Hi).
     rewrite (dft_inv_dft_nth H2 l w x i Hx Hw Hw0) by lia. rewrite dft_length, Hx.
     field. apply kofZ_pow2_neq_0. exact H2.
   Qed.
@@ -276,8 +276,7 @@ Section KLevel.
   Proof.
     unfold dft. rewrite map_length, map_map. apply map_ext_in. intros i Hi. apply in_seq in Hi.
     unfold dft_at. rewrite map_length, <- ksum_mul_r. apply ksum_ext. intros j Hj.
-    rewrite (nth_indep _ 0 ((fun y => y * c) 0)) by (rewrite map_length; exact Hj).
-    rewrite map_nth. ring.
+    rewrite (nth_map_lt _ _ 0) by exact Hj. ring.
   Qed.
   Theorem dft_idft : two_neq_0 -> forall l w x, length x = (2 ^ l)%nat -> half_root w l -> w <> 0 ->
     dft fk w (idft fk w x) = x.
